@@ -63,10 +63,9 @@ class Accessor:
         if obj is None:
             return self._accessor
 
-        accessor_obj = self._accessor(obj)
-        setattr(obj, self._name, accessor_obj)
-
-        return accessor_obj
+        # The accessor must not be cached on the expression: a (shallow) copy of the expression would keep an
+        # accessor pointing to the original node.
+        return self._accessor(obj)
 
 
 def register_accessor(name):
